@@ -1,6 +1,748 @@
-/- C03 — property theorems.  Stub. -/
-import CBV.Model.C03
+/-
+C03 — property theorems.  Cell count and total expansion returned by `Chop.calculate` obey blockMesh's
+geometric-progression law.
+
+Reading guide
+* `geomSum r n = 1 + r + … + r^(n-1)`; blockMesh, given `n` cells and total expansion `T` on an edge of
+  length `L`, uses the ratio `r > 0` with `r^(n-1) = T` (unique: `T_C03_ratio_unique`) and lays out the
+  cells `cell L n r i = firstCell L n r * r^i`, `firstCell L n r = L / geomSum r n` (`T_C03_cells`).
+* `calculate t L o v` is the model of `Chop(**v).calculate(L)`; `o` carries what the implementation got
+  from `log`/`int`/`brentq`/`**`, accepted only when it meets the exact specification of the step; the
+  theorems are stated for the exact tolerance `T0` (all slack 0) unless they hold for every `t`.
+* The relation table, `TOL` and the plans are those generated from the source at every run.
+-/
+import CBV.Lemmas.C03Calc
+import CBV.Lemmas.C03Geom
+import CBV.Lemmas.C03Mono
 
 namespace CBV.C03
+
+/-! ### 1. the closure loop of `Chop.calculate` on the generated relation table -/
+
+/-- twelve relations; for each of the ten pairs the loop terminates within 3 of its 12 rounds with all five
+    values known, after exactly three relation calls each producing a new value from known ones -/
+theorem T_C03_closure :
+    relTable.map List.length = some 12 ∧
+    ∀ K ∈ pairs, planSound K = true ∧
+      (plan K).map (fun p => (p.1.length, decide (p.2.1 ≤ 3), p.2.2)) = some (3, true, true) := by decide
+
+/-- for every set of given quantities the plan is sound, and the loop succeeds iff at least two are given -/
+theorem T_C03_closure_all :
+    ∀ K ∈ knownSets, planSound K = true ∧ (plan K).map (fun p => p.2.2) = some (decide (2 ≤ K.length)) := by
+  decide
+
+/-- which relation produces which value, for every pair (names as in the source: `out<in1+in2`) -/
+theorem T_C03_closure_table :
+    pairs.map (fun K => (plan K).map (fun p => p.1.map Rel.name)) =
+      [some ["c2c_expansion<count+start_size", "total_expansion<count+c2c_expansion", "end_size<start_size+total_expansion"],
+       some ["c2c_expansion<count+end_size", "start_size<count+c2c_expansion", "total_expansion<count+c2c_expansion"],
+       some ["start_size<count+c2c_expansion", "total_expansion<count+c2c_expansion", "end_size<start_size+total_expansion"],
+       some ["c2c_expansion<count+total_expansion", "start_size<count+c2c_expansion", "end_size<start_size+total_expansion"],
+       some ["total_expansion<start_size+end_size", "count<total_expansion+start_size", "c2c_expansion<count+end_size"],
+       some ["count<start_size+c2c_expansion", "total_expansion<count+c2c_expansion", "end_size<start_size+total_expansion"],
+       some ["count<total_expansion+start_size", "end_size<start_size+total_expansion", "c2c_expansion<count+end_size"],
+       some ["count<end_size+c2c_expansion", "start_size<count+c2c_expansion", "total_expansion<count+c2c_expansion"],
+       some ["start_size<end_size+total_expansion", "count<total_expansion+start_size", "c2c_expansion<count+end_size"],
+       some ["count<total_expansion+c2c_expansion", "start_size<count+c2c_expansion", "end_size<start_size+total_expansion"]] := by
+  decide
+
+/-- a given count is the returned count, for every set of given parameters (no relation recomputes it) -/
+theorem T_C03_given_count {t : Tol} {L : ℚ} {o : Oracle} {v res : Vals} {n : ℕ}
+    (h : calculate t L o v = .ok res) (hn : v.count = some n) : res.count = some n :=
+  given_count h hn
+
+/-- `__post_init__`: a single parameter is completed by `c2c_expansion = 1`; a count is clamped to `>= 1` -/
+theorem T_C03_defaults (c : ℤ) (x : ℚ) :
+    postInit (some c) none none none none = { count := some (max c 1).toNat, c2c := some 1 } ∧
+    postInit none (some x) none none none = { start := some x, c2c := some 1 } ∧
+    postInit none none (some x) none none = { end_ := some x, c2c := some 1 } ∧
+    postInit none none none none (some x) = { c2c := some 1, total := some x } ∧
+    postInit none none none (some x) none = { c2c := some x } ∧
+    1 ≤ (max c 1).toNat := by
+  refine ⟨rfl, rfl, rfl, rfl, rfl, ?_⟩
+  omega
+
+/-! ### 2. the progression -/
+
+/-- the cells fill the edge, consecutive cells have ratio `r`, last / first = `r^(n-1)` -/
+theorem T_C03_cells {L r : ℚ} {n : ℕ} (hr : 0 < r) (hn : 0 < n) :
+    cellSum L n r n = L ∧ (∀ i, cell L n r (i + 1) = cell L n r i * r) ∧
+      lastCell L n r = firstCell L n r * r ^ (n - 1) := by
+  refine ⟨?_, fun i => cell_succ L r n i, rfl⟩
+  rw [cellSum_eq, firstCell_mul (le_of_lt hr) hn]
+
+example : cellSum 1 4 2 4 = 1 ∧ cell 1 4 2 0 = 1 / 15 ∧ lastCell 1 4 2 = 8 / 15 := by decide +kernel
+
+/-- the ratio blockMesh derives from the total expansion is well defined -/
+theorem T_C03_ratio_unique {a b : ℚ} {n : ℕ} (ha : 0 < a) (hb : 0 < b) (hn : 2 ≤ n)
+    (h : a ^ (n - 1) = b ^ (n - 1)) : a = b :=
+  ratio_unique ha hb (by omega) h
+
+/-- `get_start_size__count__c2c_expansion`: the returned start size is the first cell of the progression,
+    `start * (1 + r + … + r^(n-1)) = L` (on the uniform branch: of the uniform progression) -/
+theorem T_C03_sum {L r s : ℚ} {n : ℕ} (h : startCountC2c L n r = .ok s) :
+    (TOL < absR (r - 1) → s * geomSum r n = L ∧ s = firstCell L n r) ∧
+    (absR (r - 1) ≤ TOL → s * n = L ∧ s = firstCell L n 1) := by
+  obtain ⟨hL, hn, hr0, hb⟩ := startCountC2c_ok h
+  have hnq : (n : ℚ) ≠ 0 := by exact_mod_cast (show n ≠ 0 by omega)
+  constructor
+  · intro hex
+    rcases hb with ⟨_, hne, hs⟩ | ⟨hle, _⟩
+    · have hr1 : r ≠ 1 := by
+        intro h1; subst h1
+        have : absR ((1 : ℚ) - 1) = 0 := by simp [absR]
+        rw [this] at hex; exact absurd hex (not_lt.mpr (le_of_lt TOL_pos))
+      have hfc := startFormula_eq_firstCell (L := L) hr1 hne
+      have h1' : (1 - r) ≠ 0 := sub_ne_zero.mpr (Ne.symm hr1)
+      have hc := geomSum_closed r n
+      have hg : geomSum r n = (1 - r ^ n) / (1 - r) := by field_simp; linarith
+      refine ⟨?_, by rw [hs, hfc]⟩
+      rw [hs, hg]; field_simp
+    · exact absurd hex (not_lt.mpr hle)
+  · intro hun
+    rcases hb with ⟨hex, _, _⟩ | ⟨_, hs⟩
+    · exact absurd hex (not_lt.mpr hun)
+    · refine ⟨by rw [hs]; field_simp, by rw [hs, uniformFormula_eq_firstCell]⟩
+
+example : startCountC2c 1 4 2 = .ok (1 / 15) := by decide +kernel
+
+/-- `get_end_size__start_size__total_expansion` applied to the first cell and `r^(n-1)` is the last cell -/
+theorem T_C03_end {L r e : ℚ} {n : ℕ} (h : endStartTotal L (firstCell L n r) (r ^ (n - 1)) = .ok e) :
+    e = lastCell L n r := by
+  obtain ⟨_, _, he⟩ := endStartTotal_ok h
+  exact he
+
+/-! ### 3. the count specification -/
+
+/-- the partial sums are strictly increasing, so the (strict) count specification has one solution -/
+theorem T_C03_mono {s r L : ℚ} {n m : ℕ} (hs : 0 < s) (hr : 0 < r) :
+    (geomSum r n < geomSum r (n + 1)) ∧
+    (CountSpec s r L n → CountSpec s r L m → n = m) ∧
+    (CountSpecW s r L n → CountSpecW s r L m →
+      n = m ∨ (m = n + 1 ∧ L = s * geomSum r n) ∨ (n = m + 1 ∧ L = s * geomSum r m)) :=
+  ⟨geomSum_lt_succ hr n, countSpec_unique hs hr, countSpecW_near_unique hs hr⟩
+
+example : CountSpec (1 / 10) (11 / 10) 1 8 := by
+  unfold CountSpec; decide +kernel
+
+/-- the count specification says: never coarser than requested, and coarser (equal at a tie) with one cell fewer -/
+theorem T_C03_never_coarser {s r L : ℚ} {n : ℕ} (hr : 0 < r) (h : CountSpecW s r L n) :
+    firstCell L n r ≤ s ∧ (2 ≤ n → s ≤ firstCell L (n - 1) r) :=
+  never_coarser hr h
+
+/-- the executable exact count satisfies the strict specification, and finds the count when there is one -/
+theorem T_C03_search {s r L : ℚ} {fuel n : ℕ} (hs : 0 < s) (hr : 0 < r) (hL : 0 ≤ L) :
+    (searchCount s r L fuel = some n → CountSpec s r L n) ∧
+    (CountSpec s r L n → n ≤ fuel → searchCount s r L fuel = some n) :=
+  ⟨searchCount_spec hL, fun h hf => searchCount_complete hs hr h hf⟩
+
+example : searchCount (1 / 10) (11 / 10) 1 (searchFuel (1 / 10) (11 / 10) 1) = some 8 := by decide +kernel
+
+/-- the exact count always exists and is found with the fuel `searchFuel`, whenever the progression can reach the
+    end of the edge at all (for `r < 1`: `s / (1 - r) > L`, the condition under which the code's logarithm exists) -/
+theorem T_C03_search_total {s r L : ℚ} (hs : 0 < s) (hr : 0 < r) (hL : 0 ≤ L)
+    (ha : r < 1 → 0 < 1 - L * (1 - r) / s) :
+    ∃ n, searchCount s r L (searchFuel s r L) = some n ∧ CountSpec s r L n := by
+  obtain ⟨n, hn⟩ := searchFrom_total (searchFuel s r L) 0 0 1 (by simp [geomSum]) (by simp) hL
+    (by rw [Nat.zero_add]; exact searchFuel_enough hs hr hL ha)
+  exact ⟨n, hn, searchCount_spec hL hn⟩
+
+example : (0 : ℚ) < 1 - 1 * (1 - 9 / 10) / (1 / 5) := by norm_num
+
+/-- for a fixed total expansion, one more cell makes the progression longer (relative to its first cell) and
+    hence its first cell smaller: if `a^(m-1) = T = b^m` then `1+a+…+a^(m-1) < 1+b+…+b^m`.  (Weighted AM-GM on
+    the exponents; this is what makes the count of the size+total pairs well defined.) -/
+theorem T_C03_total_mono {a b L : ℚ} {m : ℕ} (ha : 0 < a) (hb : 0 < b) (hm : 1 ≤ m) (hL : 0 < L)
+    (h : a ^ (m - 1) = b ^ m) :
+    geomSum a m < geomSum b (m + 1) ∧ firstCell L (m + 1) b < firstCell L m a := by
+  have hlt := geomSum_total_step ha hb hm h
+  refine ⟨hlt, ?_⟩
+  have hga := geomSum_pos (le_of_lt ha) (show 0 < m by omega)
+  unfold firstCell
+  exact div_lt_div_of_pos_left hL hga hlt
+
+example : (8 : ℚ) ^ (3 - 1) = 4 ^ 3 ∧ geomSum 8 3 = 73 ∧ geomSum 4 4 = 85 := by decide +kernel
+
+/-- uniqueness of the count for the size+total pairs: with `ρ m` the ratio for `m` cells (`ρ m ^ (m-1) = T`),
+    at most one `n` has "`n-1` cells do not exceed the edge, `n` cells do" -/
+theorem T_C03_size_total_unique {T L s : ℚ} {ρ : ℕ → ℚ} {hi n n' : ℕ} (hf : IsRatioFamily T ρ hi) (hs : 0 < s)
+    (hn : SizeTotalStrict L s ρ n) (hn' : SizeTotalStrict L s ρ n') (h1 : n ≤ hi) (h2 : n' ≤ hi) : n = n' :=
+  sizeTotalStrict_unique hf hs hn hn' h1 h2
+
+/-- the same for what the pair theorems actually deliver (`SizeTotalSpec`, non-strict, existential roots):
+    two admissible counts are equal or differ by one at an exact tie -/
+theorem T_C03_size_total_near_unique {T L s : ℚ} {ρ : ℕ → ℚ} {hi n n' : ℕ} (hf : IsRatioFamily T ρ hi)
+    (hs : 0 < s) (hn1 : 1 ≤ n) (hn1' : 1 ≤ n') (h1 : n ≤ hi) (h2 : n' ≤ hi)
+    (hn : SizeTotalSpec L s T n) (hn' : SizeTotalSpec L s T n') :
+    n = n' ∨ (n' = n + 1 ∧ L = s * totalLen ρ n) ∨ (n = n' + 1 ∧ L = s * totalLen ρ n') :=
+  sizeTotalWeak_near_unique hf hs (sizeTotalWeak_of_spec hf hn1 h1 hn) (sizeTotalWeak_of_spec hf hn1' h2 hn') h1 h2
+
+example : IsRatioFamily 64 (fun m => if m = 2 then 64 else if m = 3 then 8 else 4) 4 ∧
+    SizeTotalStrict 1 (1 / 80) (fun m => if m = 2 then 64 else if m = 3 then 8 else 4) 4 := by
+  constructor
+  · intro m h1 h2
+    have : m = 2 ∨ m = 3 ∨ m = 4 := by omega
+    rcases this with rfl | rfl | rfl <;> norm_num
+  · unfold SizeTotalStrict totalLen; decide +kernel
+
+/-! ### 4. the ten pairs, end to end on the model of `Chop.calculate` -/
+
+/-- (count, c2c): count and ratio are reproduced exactly; sizes are those of the progression -/
+theorem T_C03_pair_count_c2c {t : Tol} {L r : ℚ} {n : ℕ} {o : Oracle} {res : Vals}
+    (h : calculate t L o { count := some n, c2c := some r } = .ok res) :
+    res.count = some n ∧ res.total = some (r ^ (n - 1)) ∧ 0 < L ∧ 1 ≤ n ∧ r ≠ 0 ∧ (0 < r → 0 < r ^ (n - 1)) ∧
+      (TOL < absR (r - 1) → res.start = some (firstCell L n r) ∧ res.end_ = some (lastCell L n r)) ∧
+      (absR (r - 1) ≤ TOL → res.start = some (firstCell L n 1)) := by
+  obtain ⟨s, T, e, hs, hT, he, rfl⟩ := pair_count_c2c h
+  obtain ⟨hL, hn, hr0, hTv⟩ := totalCountC2c_ok hT
+  obtain ⟨_, _, hev⟩ := endStartTotal_ok he
+  have hsum := T_C03_sum hs
+  refine ⟨rfl, by rw [hTv], hL, hn, hr0, fun hr => pow_pos hr _, ?_, ?_⟩
+  · intro hex
+    have := (hsum.1 hex).2
+    refine ⟨by rw [this], ?_⟩
+    rw [hev, this, hTv]; rfl
+  · intro hun
+    rw [(hsum.2 hun).2]
+
+example : (returned (calculate T0 1 {} { count := some 4, c2c := some 2 })).map (fun p => p.2) = some (some 8) := by
+  decide +kernel
+
+/-- (count, total): count and total expansion are reproduced exactly, the expansion is positive -/
+theorem T_C03_pair_count_total {L T : ℚ} {n : ℕ} {o : Oracle} {res : Vals}
+    (h : calculate T0 L o { count := some n, total := some T } = .ok res) :
+    res.count = some n ∧ res.total = some T ∧ 0 < L ∧ 2 ≤ n ∧ 0 < T ∧
+      ∃ c, res.c2c = some c ∧ 0 < c ∧ c ^ (n - 1) = T ∧
+        (TOL < absR (c - 1) → res.start = some (firstCell L n c) ∧ res.end_ = some (lastCell L n c)) := by
+  obtain ⟨c, s, e, hc, hs, he, rfl⟩ := pair_count_total h
+  obtain ⟨hL, hn, hT, _, hpow⟩ := c2cCountTotal_ok hc
+  obtain ⟨hc0, hcp⟩ := powOK_zero hpow
+  obtain ⟨_, _, hev⟩ := endStartTotal_ok he
+  have hsum := T_C03_sum hs
+  refine ⟨rfl, rfl, hL, hn, hT, c, rfl, hc0, hcp, ?_⟩
+  intro hex
+  have := (hsum.1 hex).2
+  refine ⟨by rw [this], ?_⟩
+  rw [hev, this, ← hcp]; rfl
+
+example : returned (calculate T0 1 { c2c := some 2 } { count := some 4, total := some 8 }) = some (some 4, some 8) := by
+  decide +kernel
+
+/-- (count, start size): the count is reproduced; unless the count is 1 (see the counterexample below)
+    the first cell of the realised progression is the requested size — exactly, or within `TOL` of the
+    uniform size on the near-uniform branch -/
+theorem T_C03_pair_count_start {L s : ℚ} {n : ℕ} {o : Oracle} {res : Vals}
+    (h : calculate T0 L o { count := some n, start := some s } = .ok res) :
+    res.count = some n ∧ 0 < L ∧ 1 ≤ n ∧ 0 < s ∧ s < L ∧
+      ∃ c, res.c2c = some c ∧ 0 < c ∧ res.total = some (c ^ (n - 1)) ∧ 0 < c ^ (n - 1) ∧
+        ((n = 1 ∧ c = 1) ∨ (2 ≤ n ∧ absR (n * s - L) / L < TOL ∧ c = 1) ∨ (2 ≤ n ∧ firstCell L n c = s)) := by
+  obtain ⟨c, T, e, hc, hT, he, rfl⟩ := pair_count_start h
+  obtain ⟨hL, hn, hs0, hsL, hcase⟩ := c2cCountStart_ok hc
+  obtain ⟨_, _, _, hTv⟩ := totalCountC2c_ok hT
+  have hcpos : 0 < c := by
+    rcases hcase with ⟨_, rfl⟩ | ⟨_, _, rfl⟩ | ⟨_, _, _, hroot⟩
+    · exact one_pos
+    · exact one_pos
+    · exact (rootOK_zero hroot).1
+  refine ⟨rfl, hL, hn, hs0, hsL, c, rfl, hcpos, by rw [hTv], pow_pos hcpos _, ?_⟩
+  rcases hcase with ⟨h1, hc1⟩ | ⟨h2, hnear, hc1⟩ | ⟨h2, _, _, hroot⟩
+  · exact Or.inl ⟨h1, hc1⟩
+  · exact Or.inr (Or.inl ⟨h2, hnear, hc1⟩)
+  · refine Or.inr (Or.inr ⟨h2, ?_⟩)
+    obtain ⟨hc0, hsum⟩ := rootOK_zero hroot
+    have hg := geomSum_pos (le_of_lt hc0) (show 0 < n by omega)
+    unfold firstCell
+    rw [← hsum]; field_simp
+
+example : (returned (calculate T0 1 { c2c := some 2 } { count := some 4, start := some (1 / 15) })).map (fun p => p.2) = some (some 8) := by
+  decide +kernel
+
+/-- (count, end size): the count is reproduced and the last cell of the realised progression is the requested size -/
+theorem T_C03_pair_count_end {L e : ℚ} {n : ℕ} {o : Oracle} {res : Vals}
+    (h : calculate T0 L o { count := some n, end_ := some e } = .ok res) :
+    res.count = some n ∧ 0 < L ∧ 1 ≤ n ∧ 0 < e ∧
+      ∃ c, res.c2c = some c ∧ 0 < c ∧ res.total = some (c ^ (n - 1)) ∧ 0 < c ^ (n - 1) ∧
+        ((absR (n * e - L) / L < TOL ∧ c = 1) ∨ (2 ≤ n ∧ lastCell L n c = e)) := by
+  obtain ⟨c, s, T, hc, hs, hT, rfl⟩ := pair_count_end h
+  obtain ⟨hL, hn, he0, hcase⟩ := c2cCountEnd_ok hc
+  obtain ⟨_, _, _, hTv⟩ := totalCountC2c_ok hT
+  have hcpos : 0 < c := by
+    rcases hcase with ⟨_, rfl⟩ | ⟨_, _, _, hroot⟩
+    · exact one_pos
+    · have := (rootOK_zero hroot).1
+      rw [one_div] at this
+      exact inv_pos.mp this
+  refine ⟨rfl, hL, hn, he0, c, rfl, hcpos, by rw [hTv], pow_pos hcpos _, ?_⟩
+  rcases hcase with ⟨hnear, hc1⟩ | ⟨h2, _, _, hroot⟩
+  · exact Or.inl ⟨hnear, hc1⟩
+  · refine Or.inr ⟨h2, ?_⟩
+    obtain ⟨hc0, hsum⟩ := rootOK_zero hroot
+    rw [one_div] at hsum hc0
+    have hg := geomSum_pos (le_of_lt hc0) (show 0 < n by omega)
+    rw [lastCell_eq hcpos (by omega), div_eq_iff (ne_of_gt hg)]; exact hsum.symm
+
+example : (returned (calculate T0 1 { c2c := some 2 } { count := some 4, end_ := some (8 / 15) })).map (fun p => p.2) = some (some 8) := by
+  decide +kernel
+
+/-- (start size, c2c): the ratio is reproduced exactly (`T = r^(n-1)`), the count is the rounding to the next
+    whole cell: the realised first cell is never coarser than requested, and it is with one cell fewer -/
+theorem T_C03_pair_start_c2c {L s r : ℚ} {o : Oracle} {res : Vals}
+    (h : calculate T0 L o { start := some s, c2c := some r } = .ok res) :
+    ∃ n, res.count = some n ∧ 1 ≤ n ∧ res.total = some (r ^ (n - 1)) ∧ 0 < L ∧ 0 < s ∧ r ≠ 0 ∧
+      (TOL < absR (r - 1) → 0 < r ∧ 0 < r ^ (n - 1) ∧ CountSpecW s r L n ∧
+        firstCell L n r ≤ s ∧ (2 ≤ n → s ≤ firstCell L (n - 1) r)) ∧
+      (absR (r - 1) ≤ TOL → CountSpecW s 1 L n ∧ firstCell L n 1 ≤ s ∧ (2 ≤ n → s ≤ firstCell L (n - 1) 1)) := by
+  obtain ⟨n, T, e, hn, hT, he, rfl⟩ := pair_start_c2c h
+  obtain ⟨hL, hs, hr0, _, hn1, hcase⟩ := countStartC2c_ok hn
+  obtain ⟨_, _, _, hTv⟩ := totalCountC2c_ok hT
+  refine ⟨n, rfl, hn1, by rw [hTv], hL, hs, hr0, ?_, ?_⟩
+  · intro hex
+    rcases hcase with ⟨_, hr, _, hok⟩ | ⟨hun, _⟩
+    · have hspec := countOK_zero hok
+      have := never_coarser hr hspec
+      exact ⟨hr, pow_pos hr _, hspec, this.1, this.2⟩
+    · exact absurd hex (not_lt.mpr hun)
+  · intro hun
+    rcases hcase with ⟨hex, _⟩ | ⟨_, hok⟩
+    · exact absurd hex (not_lt.mpr hun)
+    · have hspec := countOK_zero hok
+      have := never_coarser one_pos hspec
+      exact ⟨hspec, this.1, this.2⟩
+
+example : (returned (calculate T0 1 { count := some 8 } { start := some (1 / 10), c2c := some (11 / 10) })).map (fun p => p.1) = some (some 8) := by
+  decide +kernel
+
+/-- (end size, c2c): the same, seen from the last cell -/
+theorem T_C03_pair_end_c2c {L e r : ℚ} {o : Oracle} {res : Vals}
+    (h : calculate T0 L o { end_ := some e, c2c := some r } = .ok res) :
+    ∃ n, res.count = some n ∧ 1 ≤ n ∧ res.total = some (r ^ (n - 1)) ∧ 0 < L ∧ 0 < e ∧ r ≠ 0 ∧
+      (TOL < absR (r - 1) → 0 < r ∧ 0 < r ^ (n - 1) ∧ CountSpecW e r⁻¹ L n ∧
+        lastCell L n r ≤ e ∧ (2 ≤ n → e ≤ lastCell L (n - 1) r)) ∧
+      (absR (r - 1) ≤ TOL → CountSpecW e 1 L n ∧ firstCell L n 1 ≤ e ∧ (2 ≤ n → e ≤ firstCell L (n - 1) 1)) := by
+  obtain ⟨n, s, T, hn, hs, hT, rfl⟩ := pair_end_c2c h
+  obtain ⟨hL, he, hr0, _, hn1, hcase⟩ := countEndC2c_ok hn
+  obtain ⟨_, _, _, hTv⟩ := totalCountC2c_ok hT
+  refine ⟨n, rfl, hn1, by rw [hTv], hL, he, hr0, ?_, ?_⟩
+  · intro hex
+    rcases hcase with ⟨_, hr, _, hok⟩ | ⟨hun, _⟩
+    · have hspec := countOK_zero hok
+      rw [one_div] at hspec
+      have := never_coarser (inv_pos.mpr hr) hspec
+      refine ⟨hr, pow_pos hr _, hspec, ?_, ?_⟩
+      · rw [← firstCell_inv hr (by omega)]; exact this.1
+      · intro h2; rw [← firstCell_inv hr (by omega)]; exact this.2 h2
+    · exact absurd hex (not_lt.mpr hun)
+  · intro hun
+    rcases hcase with ⟨hex, _⟩ | ⟨_, hok⟩
+    · exact absurd hex (not_lt.mpr hun)
+    · have hspec := countOK_zero hok
+      have := never_coarser one_pos hspec
+      exact ⟨hspec, this.1, this.2⟩
+
+example : (returned (calculate T0 1 { count := some 26 } { end_ := some (1 / 10), c2c := some (11 / 10) })).map (fun p => p.1) = some (some 26) := by
+  decide +kernel
+
+/-- (total, c2c): the total expansion is reproduced exactly, it is positive, both ratios lie on the same side
+    of 1 and the count is the rounding of `log T / log r`: `r^(n-1)` has not passed `T`, `r^n` has -/
+theorem T_C03_pair_c2c_total {L r T : ℚ} {o : Oracle} {res : Vals}
+    (h : calculate T0 L o { c2c := some r, total := some T } = .ok res) :
+    ∃ n, res.count = some n ∧ 1 ≤ n ∧ res.total = some T ∧ 0 < L ∧ 0 < T ∧ 0 < r ∧ TOL < absR (r - 1) ∧
+      ((1 < r ∧ r ^ (n - 1) ≤ T ∧ T ≤ r ^ n) ∨ (r < 1 ∧ T ≤ r ^ (n - 1) ∧ r ^ n ≤ T)) := by
+  obtain ⟨n, s, e, hn, hs, he, rfl⟩ := pair_c2c_total h
+  obtain ⟨hL, hT, hr, hex, _, _, hn1, hok⟩ := countTotalC2c_ok hn
+  rw [powCountOK_iff] at hok
+  refine ⟨n, rfl, hn1, rfl, hL, hT, hr, hex, ?_⟩
+  simpa using hok.2
+
+example : (returned (calculate T0 1 { count := some 12 } { c2c := some (11 / 10), total := some 3 })).map (fun p => p.1) = some (some 12) := by
+  decide +kernel
+
+/-- (start size, total): the total expansion is reproduced exactly; the count is the rounding to the next whole
+    cell (never coarser, coarser with one fewer) — for `|T-1| < TOL` with respect to the uniform cells of size
+    `d_min`, otherwise with respect to the progressions with total expansion `T` -/
+theorem T_C03_pair_start_total {L s T : ℚ} {o : Oracle} {res : Vals}
+    (h : calculate T0 L o { start := some s, total := some T } = .ok res) :
+    ∃ n, res.count = some n ∧ 1 ≤ n ∧ res.total = some T ∧ 0 < L ∧ 0 < s ∧ T ≠ 0 ∧
+      (absR (T - 1) < TOL → CountSpecW (dMin T s) 1 L n ∧ firstCell L n 1 ≤ dMin T s ∧
+        (2 ≤ n → dMin T s ≤ firstCell L (n - 1) 1)) ∧
+      (TOL ≤ absR (T - 1) → 0 < T ∧ SizeTotalSpec L s T n) := by
+  obtain ⟨n, e, c, hn, he, hc, rfl⟩ := pair_start_total h
+  obtain ⟨hL, hs, hT0, _, hn1, hcase⟩ := countTotalStart_ok hn
+  refine ⟨n, rfl, hn1, rfl, hL, hs, hT0, ?_, ?_⟩
+  · intro hun
+    rcases hcase with ⟨_, hok⟩ | ⟨hex, _⟩
+    · have hspec := countOK_zero hok
+      have := never_coarser one_pos hspec
+      exact ⟨hspec, this.1, this.2⟩
+    · exact absurd hun (not_lt.mpr hex)
+  · intro hex
+    rcases hcase with ⟨hun, _⟩ | ⟨_, hT, hok⟩
+    · exact absurd hun (not_lt.mpr hex)
+    · exact ⟨hT, (sizeTotalSpec_of_countTOK hok).2⟩
+
+example : (returned (calculate T0 1 { count := some 4, c2c := some 4, w1 := some 4, w2 := some 8 }
+    { start := some (1 / 85), total := some 64 })).map (fun p => p.1) = some (some 4) := by
+  decide +kernel
+
+/-- (end size, total): as (start size, total) with the start size `e / T` -/
+theorem T_C03_pair_end_total {L e T : ℚ} {o : Oracle} {res : Vals}
+    (h : calculate T0 L o { end_ := some e, total := some T } = .ok res) :
+    ∃ n, res.count = some n ∧ 1 ≤ n ∧ res.total = some T ∧ 0 < L ∧ 0 < e / T ∧ T ≠ 0 ∧
+      (absR (T - 1) < TOL → CountSpecW (dMin T (e / T)) 1 L n) ∧
+      (TOL ≤ absR (T - 1) → 0 < T ∧ 0 < e ∧ SizeTotalSpec L (e / T) T n ∧
+        (2 ≤ n → ∃ w, 0 < w ∧ w ^ (n - 1) = T ∧ lastCell L n w ≤ e)) := by
+  obtain ⟨s, n, c, hs, hn, hc, rfl⟩ := pair_end_total h
+  obtain ⟨_, hT0, hsv⟩ := startEndTotal_ok hs
+  subst hsv
+  obtain ⟨hL, hs0, _, _, hn1, hcase⟩ := countTotalStart_ok hn
+  refine ⟨n, rfl, hn1, rfl, hL, hs0, hT0, ?_, ?_⟩
+  · intro hun
+    rcases hcase with ⟨_, hok⟩ | ⟨hex, _⟩
+    · exact countOK_zero hok
+    · exact absurd hun (not_lt.mpr hex)
+  · intro hex
+    rcases hcase with ⟨hun, _⟩ | ⟨_, hT, hok⟩
+    · exact absurd hun (not_lt.mpr hex)
+    · have hspec := (sizeTotalSpec_of_countTOK hok).2
+      have he : 0 < e := by
+        have := mul_pos hs0 hT
+        rwa [div_mul_cancel₀ e hT0] at this
+      refine ⟨hT, he, hspec, ?_⟩
+      intro h2
+      obtain ⟨w, hw, hpw, hle⟩ := hspec.2.1 h2
+      refine ⟨w, hw, hpw, ?_⟩
+      rw [lastCell_eq_first_mul, hpw]
+      have := mul_le_mul_of_nonneg_right hle (le_of_lt hT)
+      rwa [div_mul_cancel₀ e hT0] at this
+
+example : (returned (calculate T0 1 { count := some 4, c2c := some 4, w1 := some 4, w2 := some 8 }
+    { end_ := some (64 / 85), total := some 64 })).map (fun p => p.1) = some (some 4) := by
+  decide +kernel
+
+/-- (start size, end size): the returned total expansion is `e / s`; the count as for (start size, total) -/
+theorem T_C03_pair_start_end {L s e : ℚ} {o : Oracle} {res : Vals}
+    (h : calculate T0 L o { start := some s, end_ := some e } = .ok res) :
+    ∃ n, res.count = some n ∧ 1 ≤ n ∧ res.total = some (e / s) ∧ 0 < L ∧ 0 < s ∧ 0 < e ∧ 0 < e / s ∧
+      (absR (e / s - 1) < TOL → CountSpecW (dMin (e / s) s) 1 L n) ∧
+      (TOL ≤ absR (e / s - 1) → SizeTotalSpec L s (e / s) n ∧
+        (2 ≤ n → ∃ w, 0 < w ∧ w ^ (n - 1) = e / s ∧ firstCell L n w ≤ s ∧ lastCell L n w ≤ e)) := by
+  obtain ⟨T, n, c, hT, hn, hc, rfl⟩ := pair_start_end h
+  obtain ⟨hL, hs, he, hTv⟩ := totalStartEnd_ok hT
+  subst hTv
+  obtain ⟨_, _, _, _, hn1, hcase⟩ := countTotalStart_ok hn
+  have hTpos : 0 < e / s := div_pos he hs
+  refine ⟨n, rfl, hn1, rfl, hL, hs, he, hTpos, ?_, ?_⟩
+  · intro hun
+    rcases hcase with ⟨_, hok⟩ | ⟨hex, _⟩
+    · exact countOK_zero hok
+    · exact absurd hun (not_lt.mpr hex)
+  · intro hex
+    rcases hcase with ⟨hun, _⟩ | ⟨_, _, hok⟩
+    · exact absurd hun (not_lt.mpr hex)
+    · have hspec := (sizeTotalSpec_of_countTOK hok).2
+      refine ⟨hspec, ?_⟩
+      intro h2
+      obtain ⟨w, hw, hpw, hle⟩ := hspec.2.1 h2
+      refine ⟨w, hw, hpw, hle, ?_⟩
+      rw [lastCell_eq_first_mul, hpw]
+      have := mul_le_mul_of_nonneg_right hle (le_of_lt hTpos)
+      have hs0 : s ≠ 0 := ne_of_gt hs
+      rwa [mul_div_cancel₀ e hs0] at this
+
+example : (returned (calculate T0 1 { count := some 4, c2c := some 4, w1 := some 4, w2 := some 8 }
+    { start := some (1 / 85), end_ := some (64 / 85) })).map (fun p => p.1) = some (some 4) := by
+  decide +kernel
+
+/-! ### 5. rejections -/
+
+/-- no relation accepts a non-positive length (so no chop that needs a calculation does) -/
+theorem T_C03_reject_length {t : Tol} {L : ℚ} {o : Oracle} {v v' : Vals} {rel : Rel} (hL : L ≤ 0) :
+    applyRel t L o v rel ≠ .ok v' := by
+  intro h
+  unfold applyRel at h
+  split at h <;> (try contradiction) <;> (split at h <;> try contradiction) <;>
+    (rw [map_ok] at h; obtain ⟨a, ha, _⟩ := h) <;>
+    first
+      | (have := (c2cCountEnd_ok ha).1; linarith)
+      | (have := (c2cCountStart_ok ha).1; linarith)
+      | (have := (c2cCountTotal_ok ha).1; linarith)
+      | (have := (countEndC2c_ok ha).1; linarith)
+      | (have := (countStartC2c_ok ha).1; linarith)
+      | (have := (countTotalC2c_ok ha).1; linarith)
+      | (have := (countTotalStart_ok ha).1; linarith)
+      | (have := (endStartTotal_ok ha).1; linarith)
+      | (have := (startCountC2c_ok ha).1; linarith)
+      | (have := (startEndTotal_ok ha).1; linarith)
+      | (have := (totalCountC2c_ok ha).1; linarith)
+      | (have := (totalStartEnd_ok ha).1; linarith)
+
+/-- what success implies about the given parameters, for every tolerance and every solver answer:
+    sizes positive, ratios non-zero, a start size given with a count below the length, a total expansion
+    given with a count needs at least two cells, total and c2c away from 1 on the same side -/
+theorem T_C03_reject {t : Tol} {L : ℚ} {o : Oracle} {res : Vals} :
+    (∀ n s, calculate t L o { count := some n, start := some s } = .ok res → 0 < L ∧ 1 ≤ n ∧ 0 < s ∧ s < L) ∧
+    (∀ n e, calculate t L o { count := some n, end_ := some e } = .ok res → 0 < L ∧ 1 ≤ n ∧ 0 < e) ∧
+    (∀ n r, calculate t L o { count := some n, c2c := some r } = .ok res → 0 < L ∧ 1 ≤ n ∧ r ≠ 0) ∧
+    (∀ n T, calculate t L o { count := some n, total := some T } = .ok res → 0 < L ∧ 2 ≤ n ∧ 0 < T) ∧
+    (∀ s e, calculate t L o { start := some s, end_ := some e } = .ok res → 0 < L ∧ 0 < s ∧ 0 < e) ∧
+    (∀ s r, calculate t L o { start := some s, c2c := some r } = .ok res →
+      0 < L ∧ 0 < s ∧ r ≠ 0 ∧ (TOL < absR (r - 1) → 0 < r ∧ 0 < 1 - L / s * (1 - r))) ∧
+    (∀ s T, calculate t L o { start := some s, total := some T } = .ok res → 0 < L ∧ 0 < s ∧ T ≠ 0) ∧
+    (∀ e r, calculate t L o { end_ := some e, c2c := some r } = .ok res →
+      0 < L ∧ 0 < e ∧ r ≠ 0 ∧ (TOL < absR (r - 1) → 0 < r ∧ 0 < 1 + L / e * (1 - r) / r)) ∧
+    (∀ e T, calculate t L o { end_ := some e, total := some T } = .ok res → 0 < L ∧ T ≠ 0 ∧ 0 < e / T) ∧
+    (∀ r T, calculate t L o { c2c := some r, total := some T } = .ok res →
+      0 < L ∧ 0 < T ∧ 0 < r ∧ TOL < absR (r - 1) ∧ 0 ≤ (T - 1) * (r - 1)) := by
+  refine ⟨?_, ?_, ?_, ?_, ?_, ?_, ?_, ?_, ?_, ?_⟩
+  · intro n s h
+    obtain ⟨c, T, e, hc, _, _, _⟩ := pair_count_start h
+    obtain ⟨h1, h2, h3, h4, _⟩ := c2cCountStart_ok hc
+    exact ⟨h1, h2, h3, h4⟩
+  · intro n e h
+    obtain ⟨c, s, T, hc, _, _, _⟩ := pair_count_end h
+    obtain ⟨h1, h2, h3, _⟩ := c2cCountEnd_ok hc
+    exact ⟨h1, h2, h3⟩
+  · intro n r h
+    obtain ⟨s, T, e, hs, _, _, _⟩ := pair_count_c2c h
+    obtain ⟨h1, h2, h3, _⟩ := startCountC2c_ok hs
+    exact ⟨h1, h2, h3⟩
+  · intro n T h
+    obtain ⟨c, s, e, hc, _, _, _⟩ := pair_count_total h
+    obtain ⟨h1, h2, h3, _⟩ := c2cCountTotal_ok hc
+    exact ⟨h1, h2, h3⟩
+  · intro s e h
+    obtain ⟨T, n, c, hT, _, _, _⟩ := pair_start_end h
+    obtain ⟨h1, h2, h3, _⟩ := totalStartEnd_ok hT
+    exact ⟨h1, h2, h3⟩
+  · intro s r h
+    obtain ⟨n, T, e, hn, _, _, _⟩ := pair_start_c2c h
+    obtain ⟨h1, h2, h3, _, _, hcase⟩ := countStartC2c_ok hn
+    refine ⟨h1, h2, h3, ?_⟩
+    intro hex
+    rcases hcase with ⟨_, hr, ha, _⟩ | ⟨hun, _⟩
+    · exact ⟨hr, ha⟩
+    · exact absurd hex (not_lt.mpr hun)
+  · intro s T h
+    obtain ⟨n, e, c, hn, _, _, _⟩ := pair_start_total h
+    obtain ⟨h1, h2, h3, _⟩ := countTotalStart_ok hn
+    exact ⟨h1, h2, h3⟩
+  · intro e r h
+    obtain ⟨n, s, T, hn, _, _, _⟩ := pair_end_c2c h
+    obtain ⟨h1, h2, h3, _, _, hcase⟩ := countEndC2c_ok hn
+    refine ⟨h1, h2, h3, ?_⟩
+    intro hex
+    rcases hcase with ⟨_, hr, ha, _⟩ | ⟨hun, _⟩
+    · exact ⟨hr, ha⟩
+    · exact absurd hex (not_lt.mpr hun)
+  · intro e T h
+    obtain ⟨s, n, c, hs, hn, _, _⟩ := pair_end_total h
+    obtain ⟨h1, h2, hsv⟩ := startEndTotal_ok hs
+    subst hsv
+    obtain ⟨_, h3, _⟩ := countTotalStart_ok hn
+    exact ⟨h1, h2, h3⟩
+  · intro r T h
+    obtain ⟨n, s, e, hn, _, _, _⟩ := pair_c2c_total h
+    obtain ⟨h1, h2, h3, h4, h5, _⟩ := countTotalC2c_ok hn
+    exact ⟨h1, h2, h3, h4, h5⟩
+
+/-- the rejecting branches are really taken: contradictory ratios, a progression shorter than the edge,
+    a start size not below the length, non-positive length / size, zero ratio, one cell with an end size -/
+example :
+    calculate T0 1 { count := some 1 } { c2c := some (9 / 10), total := some (21 / 20) } = .error (.value, some ⟨.count, .total, .c2c⟩) ∧
+    calculate T0 1 { count := some 9 } { start := some (1 / 10), c2c := some (4 / 5) } = .error (.value, some ⟨.count, .start, .c2c⟩) ∧
+    calculate T0 1 {} { count := some 3, start := some 1 } = .error (.value, some ⟨.c2c, .count, .start⟩) ∧
+    calculate T0 0 {} { count := some 3, c2c := some 1 } = .error (.value, some ⟨.start, .count, .c2c⟩) ∧
+    calculate T0 1 {} { end_ := some (-2), c2c := some 1 } = .error (.value, some ⟨.count, .end_, .c2c⟩) ∧
+    calculate T0 1 {} { count := some 5, total := some 0 } = .error (.value, some ⟨.c2c, .count, .total⟩) ∧
+    calculate T0 1 {} { count := some 5, c2c := some 0 } = .error (.value, some ⟨.start, .count, .c2c⟩) ∧
+    calculate T0 1 {} { count := some 1, end_ := some (3 / 10) } = .error (.zeroDiv, some ⟨.c2c, .count, .end_⟩) ∧
+    calculate T0 1 {} { c2c := some 1 } = .error (.value, none) := by decide +kernel
+
+/-! ### 6. the known finding: one cell with a smaller start size is accepted -/
+
+/-- The model (as the code: `if count == 1: return 1`) accepts `count = 1` with any start size below the
+    length and answers "1 cell, expansion 1", although that single cell has size `L`, not `s`. -/
+theorem T_C03_count1_start_counterexample {t : Tol} {L s : ℚ} {o : Oracle} (hs : 0 < s) (hsL : s < L) :
+    calculate t L o { count := some 1, start := some s } =
+      .ok { count := some 1, start := some s, end_ := some s, c2c := some 1, total := some 1 } ∧
+    firstCell L 1 1 ≠ s := by
+  have hL : 0 < L := lt_trans hs hsL
+  constructor
+  · rw [calculate_ok_iff (k := 2) (by exact plan_count_start), runSteps3]
+    refine ⟨{ count := some 1, start := some s, c2c := some 1 },
+      { count := some 1, start := some s, c2c := some 1, total := some 1 }, ?_, ?_, ?_⟩
+    · simp only [applyRel, map_ok]
+      refine ⟨1, ?_, rfl⟩
+      unfold c2cCountStart
+      simp only [guardLen_bind, guardCountGe1_bind]
+      rw [if_neg (not_le.mpr hL), if_neg (by omega), if_neg (not_not.mpr ⟨hsL, hs⟩)]
+      simp [pure, Except.pure]
+    · simp only [applyRel, map_ok]
+      refine ⟨1, ?_, rfl⟩
+      unfold totalCountC2c
+      simp only [guardLen_bind, guardCountGe1_bind, guardRatio_bind]
+      rw [if_neg (not_le.mpr hL), if_neg (by omega), if_neg one_ne_zero]
+      simp [pure, Except.pure]
+    · simp only [applyRel, map_ok]
+      refine ⟨s, ?_, rfl⟩
+      unfold endStartTotal
+      simp only [guardLen_bind, guardRatio_bind]
+      rw [if_neg (not_le.mpr hL), if_neg one_ne_zero]
+      simp [pure, Except.pure]
+  · rw [firstCell_one]; exact ne_of_gt hsL
+
+/-! ### 7. reversal -/
+
+/-- reversing the progression: same count, reciprocal ratio and total expansion, first and last cell swapped,
+    cell `i` becomes cell `n-1-i` -/
+theorem T_C03_invert {L r : ℚ} {n : ℕ} (hr : 0 < r) (hn : 0 < n) :
+    r⁻¹ ^ (n - 1) = (r ^ (n - 1))⁻¹ ∧ firstCell L n r⁻¹ = lastCell L n r ∧ lastCell L n r⁻¹ = firstCell L n r ∧
+      ∀ i, i < n → cell L n r⁻¹ i = cell L n r (n - 1 - i) :=
+  ⟨inv_pow_total r n, firstCell_inv hr hn, lastCell_inv hr hn, fun _ hi => cell_inv hr hi⟩
+
+/-- `Chop.invert` swaps the sizes and takes the reciprocal of the ratios; doing it twice restores the chop -/
+theorem T_C03_invert_chop {v w : Vals} (h : invert v = .ok w) :
+    w.count = v.count ∧ w.start = v.end_ ∧ w.end_ = v.start ∧ w.c2c = v.c2c.map (fun c => 1 / c) ∧
+      w.total = v.total.map (fun T => 1 / T) ∧ invert w = .ok v := by
+  unfold invert at h
+  split_ifs at h with h0
+  simp only [pure, Except.pure, Except.ok.injEq] at h
+  subst h
+  push Not at h0
+  refine ⟨rfl, rfl, rfl, rfl, rfl, ?_⟩
+  unfold invert
+  obtain ⟨c, s, e, r, T⟩ := v
+  simp only at h0 ⊢
+  have hr : r.map (fun c => 1 / c) ≠ some 0 := by
+    cases r with
+    | none => simp
+    | some x => simp only [Option.map_some, ne_eq, Option.some.injEq, one_div, inv_eq_zero]; intro hx; exact h0.1 (by rw [hx])
+  have hT : T.map (fun c => 1 / c) ≠ some 0 := by
+    cases T with
+    | none => simp
+    | some x => simp only [Option.map_some, ne_eq, Option.some.injEq, one_div, inv_eq_zero]; intro hx; exact h0.2 (by rw [hx])
+  rw [if_neg (by push Not; exact ⟨hr, hT⟩)]
+  simp only [pure, Except.pure, Except.ok.injEq, Vals.mk.injEq, true_and]
+  refine ⟨?_, ?_⟩
+  · cases r <;> simp
+  · cases T <;> simp
+
+/-- a chop given by start size and ratio (or by count and start size) and its inversion (end size, reciprocal
+    ratio) are validated by literally the same count / root specification — `count<end_size+c2c` checks
+    `countOK s (1/c')`, `c2c<count+end_size` checks `rootOK e (1/c')` with `c' = 1/c` — and have reciprocal
+    total expansion -/
+theorem T_C03_invert_pair {s r L : ℚ} {n : ℕ} (ε : ℚ) :
+    countOK ε s (1 / (1 / r)) L n = countOK ε s r L n ∧ rootOK ε s (1 / (1 / r)) L n = rootOK ε s r L n ∧
+      (1 / r) ^ (n - 1) = 1 / r ^ (n - 1) := by
+  refine ⟨by rw [one_div_one_div], by rw [one_div_one_div], ?_⟩
+  rw [one_div, one_div, inv_pow]
+
+/-- reversal, end to end on the model: if the chop (start size `s`, ratio `r`) resolves to `(n, T)`, then the inverted
+    chop (`Chop.invert`: end size `s`, ratio `1/r`) resolves, with the same solver answer for the count, to
+    `(n, 1/T)` — provided both ratios are on the exact branch of the `TOL` switch -/
+theorem T_C03_invert_start_c2c {L s r : ℚ} {o : Oracle} {res : Vals}
+    (h : calculate T0 L o { start := some s, c2c := some r } = .ok res)
+    (hb : TOL < absR (r - 1)) (hb' : TOL < absR (1 / r - 1)) :
+    ∃ res', calculate T0 L o { end_ := some s, c2c := some (1 / r) } = .ok res' ∧
+      res'.count = res.count ∧ res'.total = res.total.map (fun T => 1 / T) := by
+  obtain ⟨n, T, e, hn, hT, he, rfl⟩ := pair_start_c2c h
+  obtain ⟨hL, hs, hr0, ho, hn1, hcase⟩ := countStartC2c_ok hn
+  obtain ⟨_, _, _, hTv⟩ := totalCountC2c_ok hT
+  rcases hcase with ⟨_, hr, ha, hok⟩ | ⟨hun, _⟩
+  swap
+  · exact absurd hb (not_lt.mpr hun)
+  have hri : 0 < 1 / r := by positivity
+  have hri1 : (1 / r) ≠ 1 := by
+    intro h1
+    rw [h1] at hb'
+    simp [absR] at hb'
+    exact absurd hb' (not_lt.mpr (le_of_lt TOL_pos))
+  refine ⟨{ count := some n, start := some (L * (1 - 1 / r) / (1 - (1 / r) ^ n)), end_ := some s, c2c := some (1 / r),
+            total := some ((1 / r) ^ (n - 1)) }, ?_, rfl, ?_⟩
+  · rw [calculate_ok_iff (k := 1) (by exact plan_end_c2c), runSteps3]
+    refine ⟨{ count := some n, end_ := some s, c2c := some (1 / r) },
+      { count := some n, start := some (L * (1 - 1 / r) / (1 - (1 / r) ^ n)), end_ := some s, c2c := some (1 / r) },
+      ?_, ?_, ?_⟩
+    · simp only [applyRel, map_ok]
+      refine ⟨n, ?_, rfl⟩
+      unfold countEndC2c
+      simp only [guardLen_bind, guardSize_bind, guardRatio_bind]
+      rw [if_neg (not_le.mpr hL), if_neg (not_le.mpr hs), if_neg (ne_of_gt hri), if_pos hb', if_neg (not_lt.mpr (le_of_lt hri))]
+      have hbval : 1 + L / s * (1 - 1 / r) / (1 / r) = 1 - L / s * (1 - r) := by field_simp; ring
+      simp only [hbval]
+      rw [if_neg (not_lt.mpr (le_of_lt ha)), if_neg (ne_of_gt ha)]
+      apply oracleCount_intro ho hn1
+      rw [one_div_one_div]; exact hok
+    · simp only [applyRel, map_ok]
+      refine ⟨_, ?_, rfl⟩
+      unfold startCountC2c
+      simp only [guardLen_bind, guardCountGe1_bind, guardRatio_bind]
+      rw [if_neg (not_le.mpr hL), if_neg (by omega), if_neg (ne_of_gt hri), if_pos hb',
+        if_neg (sub_ne_zero.mpr (Ne.symm (pow_ne_one_of_pos hri hri1 hn1)))]
+      rfl
+    · simp only [applyRel, map_ok]
+      refine ⟨_, ?_, rfl⟩
+      unfold totalCountC2c
+      simp only [guardLen_bind, guardCountGe1_bind, guardRatio_bind]
+      rw [if_neg (not_le.mpr hL), if_neg (by omega), if_neg (ne_of_gt hri)]
+      rfl
+  · simp only [Option.map_some, hTv, one_div, inv_pow]
+
+example : TOL < absR ((11 : ℚ) / 10 - 1) ∧ TOL < absR (1 / ((11 : ℚ) / 10) - 1) ∧
+    returned (calculate T0 1 { count := some 8 } { end_ := some (1 / 10), c2c := some (1 / (11 / 10)) }) =
+      some (some 8, some (1 / (19487171 / 10000000))) := by decide +kernel
+
+/-- `Grading.inverted`: divisions in reverse order, same counts (and sum), reciprocal expansion, an involution -/
+theorem T_C03_invert_grading {spec inv : List Division} (h : inverted spec = .ok inv) :
+    inv.map (·.count) = (spec.map (·.count)).reverse ∧ inv.map (·.ratio) = (spec.map (·.ratio)).reverse ∧
+      inv.map (·.total) = (spec.map (fun d => 1 / d.total)).reverse ∧ gradingCount inv = gradingCount spec ∧
+      inverted inv = .ok spec := by
+  unfold inverted at h
+  split_ifs at h with h0
+  simp only [pure, Except.pure, Except.ok.injEq] at h
+  subst h
+  have hne : ∀ d ∈ spec, d.total ≠ 0 := by
+    intro d hd hz
+    apply h0
+    simp only [List.any_eq_true, decide_eq_true_eq]
+    exact ⟨d, hd, hz⟩
+  refine ⟨?_, ?_, ?_, ?_, ?_⟩
+  · simp [List.map_reverse, Function.comp_def]
+  · simp [List.map_reverse, Function.comp_def]
+  · simp [List.map_reverse, Function.comp_def]
+  · unfold gradingCount
+    simp only [List.map_map, List.map_reverse, Function.comp_def, List.sum_reverse]
+  · unfold inverted
+    have h1 : (List.map (fun d : Division => { d with total := 1 / d.total }) spec.reverse).any (fun d => d.total = 0) = false := by
+      rw [List.any_eq_false]
+      intro d hd
+      simp only [List.mem_map, List.mem_reverse] at hd
+      obtain ⟨d0, hd0, rfl⟩ := hd
+      simp only [one_div, decide_eq_true_eq, inv_eq_zero]
+      exact hne d0 hd0
+    rw [if_neg (by rw [h1]; simp)]
+    simp only [pure, Except.pure, Except.ok.injEq, List.map_reverse, List.reverse_reverse, List.map_map]
+    rw [List.map_congr_left (g := id) (fun d _ => by cases d; simp), List.map_id]
+
+example : inverted [⟨1 / 2, 8, 3 / 2⟩, ⟨1 / 2, 4, 2 / 3⟩] = .ok [⟨1 / 2, 4, 3 / 2⟩, ⟨1 / 2, 8, 2 / 3⟩] := by
+  decide +kernel
+
+/-- `Grading.add_chop` rejects length ratios outside `(0, 1]` and otherwise appends the division calculated
+    on the sub-length `L * ratio` -/
+theorem T_C03_add_chop {t : Tol} {L q : ℚ} {o : Oracle} {v : Vals} {spec spec' : List Division}
+    (h : addChop t L spec q o v = .ok spec') :
+    0 < q ∧ q ≤ 1 ∧ ∃ res n T, calculate t (L * q) o v = .ok res ∧ res.count = some n ∧ res.total = some T ∧
+      spec' = spec ++ [⟨q, n, T⟩] := by
+  unfold addChop at h
+  split_ifs at h with hq
+  have hq' := hq
+  split at h
+  · contradiction
+  · next res hres =>
+    split at h
+    · next n T hn hT =>
+      simp only [pure, Except.pure, Except.ok.injEq] at h
+      exact ⟨hq'.1, hq'.2, res, n, T, hres, hn, hT, h.symm⟩
+    · contradiction
 
 end CBV.C03
